@@ -85,8 +85,13 @@ CHECKS.update({
    ref="DESIGN §6 C19, §7", engine="tables", note=TT),
 })
 
+CHECKS.update({
+ "C14": dict(level="proof", tech="Lean 4 invariant proof of the DynamicRootSet slot-table model over all stash/clone/drop/fetch histories + differential correspondence with the real crate (slot-table hook) and drop-log monitors",
+   text="Proof: `DynRoots.inv_run` (every history of stash / stash-again / clone / drop / fetch / try_fetch / contains / set and arena destruction across any number of sets and arenas): `refine` (slot h.index holds h.ptr with ref_count = live handles of that stash), `traced` / `traced_multiset` (the set object reports exactly one pointer per live stash), `traced_while_handle`, `untraced_after_last_drop`, `fetch_identity` (own handle: the stashed pointer; foreign or destroyed-set handle: try_fetch fails, contains false, fetch panics), `free_list`, `no_internal_panic`, `outlive`, `destroyed_forever`. Survival of what is traced is C01 (`inv_run`). Tie 1: harness_dynroots drives the real DynamicRootSet (several sets and arenas, collection increments in every phase, slot reuse, handles outliving arenas), compares the slot table after every operation with the model, and monitors premature destruction / non-collection / foreign acceptance through drop tokens.",
+   ref="DESIGN §6 C14, §12", engine="dynroots", note="Lean 4.33 kernel; axioms propext, Classical.choice, Quot.sound; `Weak::as_ptr` of a dropped Rc never equals a live Rc's address (modelled as never-reused set ids), Vec/RefCell/Rc semantics, 64-bit usize sentinel and non-overflowing ref counts are trusted; the moment an unlinked set is destructed is not observable, the harness tells the model at unlinking"),
+})
+
 PENDING = {
- "C14": "check being built (DynamicRootSet slot-table model); not claimed yet",
 }
 
 def main():
@@ -112,6 +117,8 @@ def main():
              "kind_free_text": "Lean model of derive(Collect); generated-shape differential; rustc rejection probes"},
             {"name": "tables", "path": "extract/ probes/ lib/eng_tables.py lean/GcArena/Generated/ lean/GcArena/Model/{WriteCap,Conjure,CollectTy,CallGraphM}.lean", "serves_properties": ["C13", "C16", "C19", "C03", "C20"],
              "kind_free_text": "syn translator over raw + macro-expanded source -> Lean tables; table theorems; rustc probes"},
+            {"name": "dynroots", "path": "harness_dynroots/ lib/eng_dynroots.py lean/GcArena/Model/DynRoots.lean lean/DynMain.lean", "serves_properties": ["C14", "C20"],
+             "kind_free_text": "DynamicRootSet correspondence harness (slot-table hook, drop tokens) + Lean slot-table model driver"},
             {"name": "brand", "path": "extract_brand/ probes_brand/ lib/eng_brand.py lean/GcArena/Model/Brand.lean", "serves_properties": ["C12"],
              "kind_free_text": "syn translator -> Lean table theorems; rustc probe corpus"},
         ],
